@@ -58,8 +58,11 @@ class BAMOnlineMerger:
         self.start = start
         self.end = end
         # fetch uses 0-based semi-closed interval
+        # the header of a BAM file may lack a sequence of the reference (files made chromosome by chromosome): nothing to fetch there
         self.alignment_iterators = [bp[0].fetch(self.chr_id, self.start, self.end + 1,
-                                                multiple_iterators=self.multiple_iterators) for bp in self.bam_pairs]
+                                                multiple_iterators=self.multiple_iterators)
+                                    if bp[0].get_tid(self.chr_id) >= 0 else iter(())
+                                    for bp in self.bam_pairs]
         self.current_elements = PriorityQueue(len(self.alignment_iterators))
         for i, it in enumerate(self.alignment_iterators):
             try:
@@ -239,7 +242,8 @@ class AlignmentCollector:
         self.illumina_bam = illumina_bam
 
         self.bam_merger = BAMOnlineMerger(self.bam_pairs, self.chr_id, 0,
-                                          self.bam_pairs[0][0].get_reference_length(self.chr_id),
+                                          max([bp[0].get_reference_length(self.chr_id) for bp in self.bam_pairs
+                                               if bp[0].get_tid(self.chr_id) >= 0] + [0]),
                                           multiple_iterators=not self.params.high_memory)
         self.strand_detector = StrandDetector(self.chr_record)
         self.read_groupper = read_groupper
